@@ -21,9 +21,36 @@ thread_local! {
     pub static HARNESS_FAULT: RefCell<Option<String>> = const { RefCell::new(None) };
 }
 
+/// With JSIM_STEPLOG=<file> every step is appended to that file before it is executed, so
+/// that the history of a run that kills its process is known to the parent (isolate.rs).
+pub fn steplog(line: impl FnOnce() -> String) {
+    steplog_to("JSIM_STEPLOG", line)
+}
+
+pub fn steplog_to(var: &'static str, line: impl FnOnce() -> String) {
+    use std::io::Write;
+    use std::sync::Mutex;
+    static FILES: Mutex<Vec<(&'static str, Option<std::fs::File>)>> = Mutex::new(Vec::new());
+    simos::bypass(|| {
+        let mut g = FILES.lock().unwrap_or_else(|e| e.into_inner());
+        if !g.iter().any(|(v, _)| *v == var) {
+            let f = std::env::var(var).ok().and_then(|p| std::fs::OpenOptions::new().create(true).append(true).open(p).ok());
+            g.push((var, f));
+        }
+        if let Some((_, Some(f))) = g.iter_mut().find(|(v, _)| *v == var) {
+            let _ = writeln!(f, "{}", line());
+        }
+    });
+}
+
 pub fn install_panic_hook() {
     std::panic::set_hook(Box::new(|info| {
         let msg = format!("{}", info);
+        if std::env::var_os("JSIM_VERBOSE_PANICS").is_some() {
+            // an isolated child (isolate.rs): if the process is about to abort (misaligned
+            // dereference, panic while panicking, ...) these are its last words
+            eprintln!("PANIC: {}", msg.replace('\n', " "));
+        }
         if IN_CATCH.with(|c| c.get()) == 0 {
             // a panic outside a guarded API call is a harness error: say so loudly
             eprintln!("HARNESS PANIC: {}", msg);
@@ -523,6 +550,7 @@ impl<'a> Engine<'a> {
             }
         }?;
         self.out.issued.push(s.clone());
+        steplog(|| s.to_json().to_string());
         self.out.stats.steps += 1;
         *self.out.stats.ops.entry(s.name().to_string()).or_default() += 1;
         Some(s)
@@ -567,6 +595,7 @@ impl<'a> Engine<'a> {
     }
 
     pub fn run(mut self) -> Outcome {
+        steplog(|| "#run".to_string());
         loop {
             let db = match self.open() {
                 Some(db) => db,
